@@ -1,6 +1,7 @@
 package query
 
 import (
+	"context"
 	"strings"
 
 	"github.com/mithrandie/csvq/lib/option"
@@ -92,6 +93,10 @@ func NewPreparedStatement(flags *option.Flags, expr parser.StatementPreparation)
 type ReplaceValues struct {
 	Values []parser.QueryExpression
 	Names  map[string]int
+
+	// outer is the context of the statement that gave the values: a value is an expression of that statement,
+	// and a placeholder in it belongs to that statement, not to the prepared one.
+	outer context.Context
 }
 
 func NewReplaceValues(replace []parser.ReplaceValue) *ReplaceValues {
